@@ -23,6 +23,10 @@ CHECKS = {
         text="Parser totality: every message class (constructed as _getMsg constructs it) and every extension class in every context is run on arbitrary symbolic bytes of each enumerated length; z3 shows that every feasible path ends in a value or in an exception type that _getMsg maps to an alert (SyntaxError family, TLSIllegalParameterException) and that the read index stays inside the buffer. The record layer's handling of undecodable framing is covered by C02.2.",
         note="Bounded by the enumerated input lengths (quick: extension payloads 0..8, messages up to 49 bytes); X.509 bodies are opaque; wall time and heap are not measured (no allocation sized by an unchecked peer length is the proxy); connection-level obligations are being added.",
         design="5/C08", technique=T),
+    "C14": dict(
+        text="RecordSocket._sockRecvAll/_sockSendAll are executed against a socket stub whose every recv()/send() either would-blocks or transfers a symbolic number of bytes: under every such schedule the value produced is exactly the next `length` symbolic bytes, nothing is read beyond them, one 0 is yielded per would-block, EOF is TLSAbruptCloseError and the loop never spins; everything passed to send is transmitted once and in order. The Defragmenter delivers the same two symbolic handshake messages (and an interleaved alert) wherever the stream is cut. TLSConnection.read() on a symbolic wire gives the same outcome (data, alert, abrupt close, closed flag) under every chunk schedule as under one-shot delivery. The blocking read/write/close are shown (AST pattern, regenerated each run) to be exactly 'exhaust the async generator', and AsyncStateMachine._checkAssert to admit at most one active operation for all flag combinations.",
+        note="Streams of <= 7 bytes at socket level, 2-3 fragments in the defragmenter, chunk sizes {1, 2, all} and one would-block at connection level; whole handshakes under arbitrary schedules follow only by composition (all socket reads go through _sockRecvAll).",
+        design="5/C14", technique=T),
     "C15": dict(
         text="Parse-first identity: for every message and extension class and arbitrary symbolic input bytes of each enumerated length, z3 proves on every accepting path that the parser consumed exactly the declared length and that write(parse(b)) == b byte for byte (for the four classes that normalise by design: that the normal form is a fixed point). This gives at once: no trailing bytes swallowed, no inner/outer length disagreement accepted, no read past the end, and parse(write(v)) == v for every v in the image of parse.",
         note="Bounded by the enumerated lengths (extension payloads 0..8 quick / 0..16 thorough; messages up to 49/57 bytes); X.509 bodies opaque; value-first checks for values outside the image of parse (2^16/2^24-sized lists) are not covered.",
